@@ -3,6 +3,7 @@ mod cfilter;
 mod corrupt;
 mod driver;
 mod evidence;
+mod fsx;
 mod hx;
 mod manifest;
 mod model;
@@ -11,6 +12,7 @@ mod oracles;
 mod registry;
 mod scanmc;
 mod scen;
+mod strace;
 mod tablemc;
 
 use std::sync::Arc;
@@ -35,6 +37,7 @@ fn main() {
             match args[2].as_str() {
                 "C12" => run_tablemc(&args[3]),
                 "C10" => run_corrupt(&args[3]),
+                "C16" => run_fault(&args[3]),
                 _ => run_hx(&args[2], &args[3]),
             }
         }
@@ -45,6 +48,7 @@ fn main() {
             run_replay(&args[2])
         }
         "corrupt-worker" => corrupt::worker_main(),
+        "fs-subject" => fsx::subject_main(&args[2]),
         _ => usage(),
     };
     std::process::exit(code);
@@ -316,6 +320,71 @@ fn run_corrupt(tier: &str) -> i32 {
     exit
 }
 
+fn run_fault(tier: &str) -> i32 {
+    let (max_wall, _) = registry::caps(tier);
+    let o = fsx::run_faults(tier, threads(), max_wall);
+    let mut exit2 = false;
+    for m in o.machinery.iter().take(10) {
+        eprintln!("MACHINERY: {m}");
+        exit2 = true;
+    }
+    let mut items = vec![];
+    let mut seen = std::collections::BTreeSet::new();
+    for f in &o.found {
+        if !seen.insert(f.sig.clone()) {
+            continue;
+        }
+        // confirm by replaying twice
+        let r1 = fsx::replay_fault(f);
+        let r2 = fsx::replay_fault(f);
+        match (&r1, &r2) {
+            (Ok(a), Ok(b)) if !a.is_empty() && a.len() == b.len() => {
+                items.push((f.sig.clone(), f.msg.clone(), serde_json::to_value(f).unwrap()));
+            }
+            _ => {
+                eprintln!("MACHINERY: fault case {} did not replay deterministically ({r1:?} / {r2:?})", f.sig);
+                exit2 = true;
+            }
+        }
+    }
+    let (mut exit, n_viol, n_known) = report("C16", items);
+    if exit2 && exit == 0 {
+        exit = 2;
+    }
+    let _ = std::fs::remove_dir_all(hx::scratch_root());
+    let ev = evidence::Evidence {
+        property: "C16".into(),
+        tier: tier.into(),
+        level: "fault_enumeration".into(),
+        coverage: serde_json::json!({
+            "evaluations": o.runs,
+            "distinct_nontrivial": o.op_failed,
+            "rule": "for every history, every op and every file-system call the op issues in the clean syscall log (openat, read, pread64, write, pwrite64, fsync, rename*, unlink*, mkdir, statx, getdents64, ...), one run per applicable errno (ENOSPC/EIO) and per continuation (retry the op / reopen at once) with exactly that call failing via strace fault injection; a run is non-trivial when the injected failure made the operation return an error (otherwise the fault was absorbed and the run must equal the clean run)",
+            "samples": o.samples,
+            "exhaustive": !o.capped,
+            "capped": o.capped,
+            "histories": o.histories,
+            "fault_points": o.points,
+            "runs_op_returned_error": o.op_failed,
+            "runs_fault_absorbed": o.swallowed,
+            "runs_fault_point_not_reached": o.not_reached,
+            "known_findings_matched": n_known,
+        }),
+        assumptions: vec![
+            "single fault per run; the failing call is not executed and returns the error (strace inject)".into(),
+            "syscall ordinals are taken from a clean traced run of the same deterministic subject".into(),
+        ],
+        wall_s: o.wall_s,
+        violations: n_viol,
+    };
+    evidence::write_evidence(&ev);
+    eprintln!(
+        "[fault C16 {tier}] histories={} points={} runs={} op_failed={} absorbed={} not_reached={} violations={n_viol} known={n_known} capped={} wall={:.1}s",
+        o.histories, o.points, o.runs, o.op_failed, o.swallowed, o.not_reached, o.capped, o.wall_s
+    );
+    exit
+}
+
 fn run_tablemc(tier: &str) -> i32 {
     let (max_wall, _) = registry::caps(tier);
     let o = tablemc::run(tier, threads(), max_wall);
@@ -421,6 +490,28 @@ fn run_replay(path: &str) -> i32 {
             } else {
                 println!("no violation on replay");
                 0
+            }
+        }
+        Some("fault") => {
+            let c: fsx::FaultReplay = serde_json::from_value(v).expect("fault replay");
+            let r = fsx::replay_fault(&c);
+            let _ = std::fs::remove_dir_all(hx::scratch_root());
+            match r {
+                Err(e) => {
+                    eprintln!("MACHINERY: {e}");
+                    2
+                }
+                Ok(v) if v.is_empty() => {
+                    println!("no violation on replay");
+                    0
+                }
+                Ok(v) => {
+                    for x in v {
+                        println!("violation {x}");
+                    }
+                    println!("VIOLATION property={} replay={path}", c.property);
+                    1
+                }
             }
         }
         Some("tablemc") => {
